@@ -1346,6 +1346,13 @@ int32 matrixResumeSession(ssl_t *ssl)
     {
         return PS_ARG_FAIL;
     }
+    /* Every id this cache issues is SSL_MAX_SESSION_ID_SIZE bytes long.
+       A shorter one is not ours: comparing only the bytes the client chose
+       to send would let any prefix (down to the bare table index) match. */
+    if (ssl->sessionIdLen != SSL_MAX_SESSION_ID_SIZE)
+    {
+        return PS_FAILURE;
+    }
     id = ssl->sessionId;
 
     i = ((uint32) id[3] << 24) + (id[2] << 16) + (id[1] << 8) + id[0];
@@ -1360,8 +1367,7 @@ int32 matrixResumeSession(ssl_t *ssl)
     Expiration is done on daily basis (86400 seconds)
  */
     psGetTime(&accessTime, ssl->userPtr);
-    if ((Memcmp(g_sessionTable[i].id, id,
-             (uint32) min(ssl->sessionIdLen, SSL_MAX_SESSION_ID_SIZE)) != 0) ||
+    if ((Memcmp(g_sessionTable[i].id, id, SSL_MAX_SESSION_ID_SIZE) != 0) ||
         (psDiffMsecs(g_sessionTable[i].startTime,   accessTime, ssl->userPtr) >
                 SSL_SESSION_ENTRY_LIFE) || (g_sessionTable[i].majVer != psEncodeVersionMaj(GET_NGTD_VER(ssl)))
             || (g_sessionTable[i].minVer != psEncodeVersionMin(GET_NGTD_VER(ssl))))
